@@ -203,7 +203,7 @@ impl Profile {
             }
             "memows" => {
                 p.name = "memows";
-                p.p_twin = 170;
+                p.p_twin = 230;
                 p.p_no_skip_ws = 110;
                 p.p_custom_ws = 30;
                 p.p_memoize = 100;
@@ -949,7 +949,7 @@ impl<'a, 'b> Gen<'a, 'b> {
             }
         });
         if let Some(c) = callee {
-            if self.src.chance(200) {
+            if self.src.chance(235) {
                 if let Some(n) = g.normal_mut(&c) {
                     n.remove(&Directive::NoSkipWs);
                     if self.src.chance(180) {
